@@ -130,19 +130,31 @@ def make_dispatcher(world, builder):
     import openpectus.protocol.messages as M
 
     class FakeLinkDispatcher(EngineDispatcher):
-        """Real dispatcher (real assign_sequence_number, real _sequence_number counter); only the wire is a model."""
+        """Real dispatcher (real assign_sequence_number, real _sequence_number counter, real _register_for_engine_id_async); only the wire (websocket and the REST post of the registration) is a model."""
 
         def __init__(self):
             super().__init__(builder, aggregator_host="", secure=False,
                              uod_options={"uod_name": "u", "uod_author_name": "a", "uod_author_email": "e",
                                           "uod_filename": "f", "location": "l"})
 
+        async def send_registration_msg_async(self, message):
+            # the REST post of the registration: fails iff the link is down, does not suspend
+            import openpectus.protocol.aggregator_messages as AM
+            if not world.link_up:
+                raise ProtocolNetworkException("Post failed with exception")
+            return AM.RegisterEngineReplyMsg(success=True, engine_id="e1", secret_match=True, version_match=True)
+
         async def connect_async(self):
             if self._engine_id is None:
-                if not world.link_up:
+                # the REAL registration routine (the runner clears the engine id on every failure, so every reconnect registers again)
+                try:
+                    self._engine_id = await self._register_for_engine_id_async()
+                except ProtocolNetworkException:
                     world.log.append(("connect", "fail"))
-                    raise ProtocolNetworkException("Post failed with exception")
-                self._engine_id = "e1"
+                    raise
+                if self._engine_id is None:
+                    world.log.append(("connect", "fail"))
+                    raise ProtocolNetworkException("Registration failed")
             if not world.link_up:
                 world.log.append(("connect", "fail"))
                 raise ProtocolNetworkException("Error creating websocket connection")
